@@ -32,6 +32,8 @@ def graphs():
     for n, callees in mir.call_graph().items():
         p = mir.bodies[n].parent
         for c in callees:
+            if (n, c) in mir.approx_edges:
+                continue        # over-approximated dispatch (trait objects, function pointers, ..): not an edge the compiler resolved
             cp = mir.bodies[c].parent
             if cp != p:
                 gb.setdefault(p, set()).add(cp)
